@@ -157,3 +157,15 @@ MANIFEST_TEXT['C06'] = dict(
     text='Coq theorems on a total model of Endpoint.ParseMessage + ocppMessageHandler, for every JSON array whatsoever: at most one effect (CALL_ERROR reply, completion of the outstanding request, or delivery to the request handler); the outstanding request is touched only by a well-formed reply carrying exactly its id; a CALL_ERROR is sent only with a non-empty id extracted from the frame and carries it; foreign replies cause nothing. The model is run against the four real endpoint kinds on a grammar-based malformed stream (about 1800 frames per run incl. raw garbage, deep nesting, huge strings), with a recover / process-isolation watchdog for panics and a quiescence watchdog for hangs, and a valid exchange after every frame.',
     note='Trusted: Coq kernel, translator (action tables), harness; encoding/json and the payload verdict come from the library. Panic-freedom of the Go code itself is observed (every frame of the stream), not proved: the model is total where the Go code guards each access.',
     technique='Coq proofs over a total model of the frame handling + differential correspondence on a grammar-based malformed stream + crash / hang / usability monitors')
+
+WS_TRUST = ['modelled, exercised, not verified: gorilla/websocket (upgrade, origin check, framing, control frames), net/http, the kernel\'s TCP loopback, timers']
+PROPS['C14'] = Prop('C14', harness='c14', entries=['c14'], props_file='theories/Props/C14.v', quick_n=1, thorough_n=1,
+                    trusted=WS_TRUST + ['raw gorilla client used as the peer'],
+                    assumptions=['protocols, credentials and ids are opaque in the model; the harness uses 3 protocol names, right / wrong / absent credentials, ids the check handler accepts / rejects',
+                                 'which common sub-protocol is echoed is decided by gorilla\'s upgrader (server preference order; none is echoed when the server lists none): admission is compared, the echoed name is only checked to be requested and supported'],
+                    rule='enumerated matrix on real loopback sockets: 5 supported lists x auth handler on/off x check-client handler on/off x origin policy (gorilla default, allow, deny) = 60 servers; handshakes: 13 requested lists (length 0-2 over 3 protocols) x credentials (absent, right, wrong) x id (accepted, rejected by the check handler) x Origin (absent, same, other) x id (fresh, already connected); quick: every 11th handshake of every server, thorough: all 56 160; a message is sent on every admitted connection',
+                    design_ref='5 C14', monitor_prefixes=['C14'], harness_timeout=3000, spec_entries=['c14'])
+MANIFEST_TEXT['C14'] = dict(
+    text='Coq theorems on the admission function (the order of wsHandler): admitted iff auth, check-client, origin and sub-protocol negotiation all pass and the id is not connected; refused => no callback; negotiation characterised (requested and supported, first supported wins, fails only without a match). The function is compared with the real ws server over loopback sockets on the enumerated configuration x handshake matrix, and callbacks are counted on the server for every handshake.',
+    note='Trusted: Coq kernel, extraction, harness; gorilla/websocket, net/http and the loopback stack are exercised, not verified.',
+    technique='Coq proof over a pure admission function + enumerated differential correspondence on real loopback sockets')
